@@ -676,7 +676,14 @@ impl Ctx {
             self.rep.cur_idx = idx;
             self.rep.journal_write(ord, name, idx, "");
             let mut rng = Rng::new(mix(&[seed, stage_h, idx]));
+            let t0 = std::time::Instant::now();
             f(idx, &mut rng, &mut self.rep);
+            let dt = t0.elapsed().as_secs_f64();
+            if dt > 1.0 {
+                // evidence only: which cases dominate the run time (never a verdict)
+                self.rep.count("_slow_cases_over_1s");
+                self.rep.note("slow-case", &format!("{}:{} took {:.1}s", name, idx, dt));
+            }
             self.rep.digest_case_end(ord, idx);
             ran += 1;
             idx += self.nshards;
